@@ -20,9 +20,14 @@
 // Oracles
 //   EXACT domain (ranks in {-1,0,1}, utilities small dyadic rationals, r = k/64): every float operation of the library
 //   is exact, the expected configuration is computed in integer (dyadic rational) arithmetic by Model<Q>: strict equality.
-//   ROUNDING domain (flat regions, utilities from {0, 2^-24, 0.1, 1/3, 1, 3, 1e10, 2*FLT_MIN}): hard rules (something is
-//   selected, it has the top rank, its utility is > 0, one generator call) and the tolerant interval rule (the exact
-//   answer, computed in long double, or a neighbour when r*sum is within 4 ulp(sum) of the common boundary).
+//   ROUNDING domain (flat regions, utilities from {0, 2^-24, 0.1, 1/3, 1, 3, 1e10, 2*FLT_MIN}, plus sampled vectors with
+//   full 24-bit mantissas): hard rules (something is selected, it has the top rank, its utility is > 0, one generator
+//   call) and the tolerant interval rule (the exact answer, computed in long double, or a neighbour when r*sum is within
+//   4 ulp(sum) of the common boundary). r: 0, 2^-24, 0.5, 1-2^-23, 1-2^-24 and, per cumulative boundary, the float
+//   nearest to boundary/sum and its two neighbours.
+//
+// A walk that falls off the end of C_::resolveRandom leaves the region active without an active sub-state:
+// fingerprint random/none-selected (the HFSM2_BREAK() it reaches is counted through the hook and folded into it).
 #define HFSM2_ENABLE_UTILITY_THEORY
 #ifdef VT_ASSERT
 #define HFSM2_ENABLE_ASSERT
